@@ -129,6 +129,135 @@ FixextsFails(e) ==
                                 /\ SetOf(e.after[n].l) = Keep(n, "L") /\ SetOf(e.after[n].r) = Keep(n, "R")
   IN IF P3 THEN {} ELSE {"P3"}
 
+
+\* ---------------------------------------------------------------- pipeline (C04)
+PipelineFails(e) ==
+  IF e.panic # "" THEN {"PANIC"}
+  ELSE IF ~NodesOK(e.sharded) \/ ~NodesOK(e.direct) THEN {"S1"} ELSE
+  LET K == e.K  st == e.st
+      R == RefTable(K, st, e.thr, e.reads)
+      T == Prune(st, R, DOMAIN R)
+      S1 == GraphFails(K, st, "sum", T, e.sharded) = {}
+      S2 == GraphFails(K, st, "sum", T, e.direct) = {}
+      S3 == /\ Blocks(K, st, e.sharded) = Blocks(K, st, e.direct)
+            /\ Links(K, st, e.sharded) = Links(K, st, e.direct)
+  IN {c \in {"S1", "S2", "S3"} : ~(CASE c = "S1" -> S1 [] c = "S2" -> S2 [] c = "S3" -> S3)}
+
+\* ---------------------------------------------------------------- strand (C06)
+StrandFails(e) ==
+  IF e.panic # "" THEN {"PANIC"} ELSE
+  LET K == e.K  st == e.st  ta == e.ta  tb == e.tb
+      KeysOf(t) == {t[i].k : i \in 1..Len(t)}
+      RowOf(t, k) == t[CHOOSE i \in 1..Len(t) : t[i].k = k]
+      \* unstranded: the table does not depend on the orientation in which reads are given
+      Y1 == st \/ /\ KeysOf(ta) = KeysOf(tb) /\ Len(ta) = Len(tb)
+                  /\ \A k \in KeysOf(ta) :
+                       /\ RowOf(ta, k).d = RowOf(tb, k).d
+                       /\ (Pal(k) \/ (SetOf(RowOf(ta, k).l) = SetOf(RowOf(tb, k).l) /\ SetOf(RowOf(ta, k).r) = SetOf(RowOf(tb, k).r)))
+      \* ... and every key is the smaller of the k-mer and its reverse complement
+      Y2 == st \/ \A k \in KeysOf(ta) \cup KeysOf(tb) : k = Canon(k)
+      \* ... and neither does the graph (partition, payloads, adjacencies), whichever pipeline built it
+      Y3 == st \/ \A i \in 1..Len(e.runs) :
+              /\ Blocks(K, st, e.runs[i].a) = Blocks(K, st, e.runs[i].b)
+              /\ Links(K, st, e.runs[i].a) = Links(K, st, e.runs[i].b)
+      \* stranded: exactly the forward-strand k-mers and links of the reads
+      KeepOf(reads) == DOMAIN RefTable(K, TRUE, e.thr, reads)
+      FwdOnly(reads, g) ==
+        /\ UNION {KmersOfNode(K, TRUE, g[n]) : n \in 1..Len(g)} = KeepOf(reads)
+        /\ Links(K, TRUE, g) = ObsLinks(K, TRUE, reads, KeepOf(reads))
+      Y4 == ~st \/ (KeysOf(ta) = KeepOf(e.reads) /\ KeysOf(tb) = KeepOf(e.reads2))
+      Y5 == ~st \/ \A i \in 1..Len(e.runs) : FwdOnly(e.reads, e.runs[i].a) /\ FwdOnly(e.reads2, e.runs[i].b)
+  IN {c \in {"Y1", "Y2", "Y3", "Y4", "Y5"} :
+        ~(CASE c = "Y1" -> Y1 [] c = "Y2" -> Y2 [] c = "Y3" -> Y3 [] c = "Y4" -> Y4 [] c = "Y5" -> Y5)}
+
+\* ---------------------------------------------------------------- iter / iterall (C18)
+\* abstract iterator over the k-mers of a node: state = number of items consumed
+IterFails(e) ==
+  IF e.panic # "" THEN {"PANIC"} ELSE
+  LET K == e.K  ks == Kmers(e.s, K)  n == Len(ks)  NC == Len(e.calls)
+      Adv(p, c) == IF c[1] = "next" THEN (IF p < n THEN p + 1 ELSE n)
+                   ELSE (IF p + c[2] < n THEN p + c[2] + 1 ELSE n)
+      Ret(p, c) == IF c[1] = "next" THEN (IF p < n THEN ks[p + 1] ELSE <<>>)
+                   ELSE (IF p + c[2] < n THEN ks[p + c[2] + 1] ELSE <<>>)
+      St[i \in 0..NC] == IF i = 0 THEN 0 ELSE Adv(St[i-1], e.calls[i])
+      I1 == e.len0 = n /\ e.hint0 = <<n, n>>
+      I2 == Len(e.outs) = NC /\ \A i \in 1..NC : e.outs[i] = Ret(St[i-1], e.calls[i])
+      I3 == /\ ~e.capped
+            /\ e.rest = [j \in 1..(n - St[NC]) |-> ks[St[NC] + j]]
+            /\ \A j \in 1..Len(e.after_end) : e.after_end[j]
+  IN {c \in {"I1", "I2", "I3"} : ~(CASE c = "I1" -> I1 [] c = "I2" -> I2 [] c = "I3" -> I3)}
+
+IterallFails(e) ==
+  IF e.panic # "" THEN {"PANIC"} ELSE
+  LET K == e.K  nodes == e.nodes  NN == Len(nodes)
+      Cat[i \in 0..NN] == IF i = 0 THEN <<>> ELSE Cat[i-1] \o Kmers(nodes[i].s, K)
+      N == Len(Cat[NN])
+      Distinct(q) == Cardinality(SetOf(q)) = Len(q) /\ \A j \in 1..Len(q) : q[j] >= 0 /\ q[j] < N
+      I4 == e.all = Cat[NN] /\ e.lens = [i \in 1..NN |-> NK(K, nodes[i])]
+      \* the graph's k-mers are pairwise distinct, so the iteration visits each exactly once and the MPHF is perfect
+      I5 == /\ Len(e.slots) = N /\ Distinct(e.slots) /\ Len(e.pslots) = N /\ Distinct(e.pslots)
+  IN {c \in {"I4", "I5"} : ~(CASE c = "I4" -> I4 [] c = "I5" -> I5)}
+
+\* ---------------------------------------------------------------- export (C20)
+ExportFails(e) ==
+  IF e.panic # "" THEN {"PANIC"} ELSE
+  LET K == e.K  st == e.st  nodes == e.nodes  NN == Len(nodes)
+      IsPal(n) == PalNode(K, st, nodes[n])
+      \* an adjacency is an unordered pair of ports <<node, side>>; both sides of a palindromic single-k-mer node are one port
+      Port(n, side) == <<n, IF IsPal(n) THEN "L" ELSE side>>
+      PLess(p, q) == p[1] < q[1] \/ (p[1] = q[1] /\ p[2] = "L" /\ q[2] = "R")
+      Norm(p, q) == IF PLess(q, p) THEN <<q, p>> ELSE <<p, q>>
+      SpecLinks == UNION {UNION {{Norm(Port(u, d), Port(t[1], t[2])) : t \in EdgeSetOf(K, st, nodes, u, d)} : d \in {"L", "R"}} : u \in 1..NN}
+      WellFormedLink(x) == x[1] >= 0 /\ x[1] < NN /\ x[3] >= 0 /\ x[3] < NN /\ x[2] \in {"+", "-"} /\ x[4] \in {"+", "-"}
+      GfaLink(x) == Norm(Port(x[1] + 1, IF x[2] = "+" THEN "R" ELSE "L"), Port(x[3] + 1, IF x[4] = "+" THEN "L" ELSE "R"))
+      Lines == 1..Len(e.links)
+      Count(lk) == Cardinality({i \in Lines : GfaLink(e.links[i]) = lk})
+      TouchPal(lk) == IsPal(lk[1][1]) \/ IsPal(lk[2][1])
+      REdges == UNION {{<<u - 1, t[1] - 1, t[2]>> : t \in EdgeSetOf(K, st, nodes, u, "R")} : u \in 1..NN}
+      JT(x) == <<x[1], x[2], x[3]>>
+      JCount(tr) == Cardinality({i \in 1..Len(e.json_links) : JT(e.json_links[i]) = tr})
+      G1 == /\ Len(e.segs) = NN /\ \A n \in 1..NN : e.segs[n][1] = n - 1 /\ e.segs[n][2] = Ascii(nodes[n].s)
+            /\ e.gfa_other_lines = 0 /\ e.file_same /\ e.tags_same
+      G2 == \A i \in Lines : WellFormedLink(e.links[i]) /\ GfaLink(e.links[i]) \in SpecLinks          \* no invented link
+      G3 == \A lk \in SpecLinks : Count(lk) >= 1                                                       \* none lost
+      G4 == (\A i \in Lines : WellFormedLink(e.links[i])) =>
+               \A lk \in SpecLinks : Count(lk) <= 1 \/ (TouchPal(lk) /\ Count(lk) = 2)                 \* exactly once
+      G5 == \A i \in Lines : e.links[i][5] = ToString(K - 1) \o "M"
+      J1 == e.json_ok /\ e.json_rest_ok
+      J2 == e.json_ok => /\ Len(e.json_nodes) = NN
+                         /\ \A n \in 1..NN : /\ e.json_nodes[n][1] = n - 1 /\ e.json_nodes[n][2] = Len(nodes[n].s)
+                                             /\ (Len(nodes[n].s) < 256 => e.json_nodes[n][3] = Ascii(nodes[n].s))
+                                             /\ e.json_nodes[n][4] = nodes[n].d
+      J3 == e.json_ok => /\ \A tr \in REdges : JCount(tr) = 1
+                         /\ \A i \in 1..Len(e.json_links) : JT(e.json_links[i]) \in REdges
+  IN {c \in {"G1", "G2", "G3", "G4", "G5", "J1", "J2", "J3"} :
+        ~(CASE c = "G1" -> G1 [] c = "G2" -> G2 [] c = "G3" -> G3 [] c = "G4" -> G4 [] c = "G5" -> G5
+            [] c = "J1" -> J1 [] c = "J2" -> J2 [] c = "J3" -> J3)}
+
+SerdeFails(e) ==
+  IF e.panic # "" THEN {"PANIC"} ELSE
+  IF \A i \in 1..Len(e.items) : e.items[i].before = e.items[i].after /\ e.items[i].eq /\ e.items[i].rc_eq
+  THEN {} ELSE {"Z1"}
+
+\* ---------------------------------------------------------------- index (C19)
+IndexFails(e) ==
+  IF e.panic # "" THEN {"PANIC"} ELSE
+  LET K == e.K  st == e.st
+      X1 == \A i \in 1..Len(e.runs) : e.runs[i].digest = e.serial
+      Want(pr) == IF e.embed THEN Lookup(K, st, e.nodes, pr.k, pr.dir)
+                  ELSE IF pr.fw >= 0 THEN {<<pr.fw + 1, Opp(pr.dir), FALSE>>}
+                  ELSE IF ~st /\ pr.rv >= 0 THEN {<<pr.rv + 1, pr.dir, TRUE>>}
+                  ELSE {}
+      X2 == \A i \in 1..Len(e.sample) :
+              LET pr == e.sample[i] IN IF pr.ans = <<>> THEN Want(pr) = {} ELSE Want(pr) = {Tup3(pr.ans)}
+      \* a k-mer is found as a node end exactly when that node starts / ends with it
+      X3 == \A i \in 1..Len(e.sample) :
+              LET pr == e.sample[i] IN
+              pr.ans = <<>> \/
+                (IF pr.ans[3] THEN (IF pr.dir = "R" THEN pr.last = RC(pr.k) ELSE pr.first = RC(pr.k))
+                 ELSE (IF pr.dir = "R" THEN pr.first = pr.k ELSE pr.last = pr.k))
+  IN {c \in {"X1", "X2", "X3"} : ~(CASE c = "X1" -> X1 [] c = "X2" -> X2 [] c = "X3" -> X3)}
+
 \* ---------------------------------------------------------------- machine
 Fails(e) ==
   CASE e.op = "compress"   -> CompressFails(e)
@@ -136,6 +265,13 @@ Fails(e) ==
     [] e.op = "graphq"     -> GraphqFails(e)
     [] e.op = "prune"      -> PruneFails(e)
     [] e.op = "fixexts"    -> FixextsFails(e)
+    [] e.op = "pipeline"   -> PipelineFails(e)
+    [] e.op = "strand"     -> StrandFails(e)
+    [] e.op = "iter"       -> IterFails(e)
+    [] e.op = "iterall"    -> IterallFails(e)
+    [] e.op = "export"     -> ExportFails(e)
+    [] e.op = "serde"      -> SerdeFails(e)
+    [] e.op = "index"      -> IndexFails(e)
     [] e.op = "timeout"    -> {"TIMEOUT"}
     [] OTHER -> {"UNKNOWN-OP"}
 
